@@ -394,12 +394,26 @@ def rule_order(R):
         for bb in code.switches:
             si = code.switch_info(bb)
             s = peel(si["subject"])
-            if is_call(s, "is_empty") and any(x == ("param", "topics") for x in walk(s)) and si["edges"].get(False) is not None:
-                edges.append((bb, si["edges"][False]))
-                te = si["edges"].get(True)
-                vals = [code.rvalue_term(st["rv"]) for x in code.reach([te], avoid=[si["edges"][False]]) for st in code.blocks[x]["stmts"]
+            empty_lab = None
+            if is_call(s, "is_empty") and any(x == ("param", "topics") for x in walk(s)):
+                empty_lab = True
+            elif s[0] == "bin" and s[1] in ("Eq", "Ne") and any(peel(x)[0] == "const" and peel(x)[2] == 0 for x in (s[2], s[3])) \
+                    and any(is_call(peel(x), "len") and any(y == ("param", "topics") for y in walk(x)) for x in (s[2], s[3])):
+                empty_lab = (s[1] == "Eq")       # `topics.len() == 0`
+            if empty_lab is not None and si["edges"].get(not empty_lab) is not None:
+                edges.append((bb, si["edges"][not empty_lab]))
+                te = si["edges"].get(empty_lab)
+                vals = [code.rvalue_term(st["rv"]) for x in code.reach([te], avoid=[si["edges"][not empty_lab]]) for st in code.blocks[x]["stmts"]
                         if st["k"] == "assign" and st["dst"]["l"] == 0] if te is not None else []
-                errs = errs and bool(vals) and all("InvalidRequest" in show(v) for v in vals)
+                e_ok = bool(vals) and all("InvalidRequest" in show(v) for v in vals)
+                if not e_ok and te is not None:
+                    # the refusal may be produced in a folded-in helper and come back through `?`: follow the paths
+                    vs2 = []
+                    for lf in paths.explore(code, te, lambda t_: False, lambda b_, x_: False, max_paths=400):
+                        if lf["kind"] == "return":
+                            vs2.append(paths.value_on_path(code, [bb] + lf["path"], 0))
+                    e_ok = bool(vs2) and all(v is not None and "InvalidRequest" in show(v) for v in vs2)
+                errs = errs and e_ok
         ok = bool(edges) and errs and all(code.must_pass([0], [a], via_edges=edges)[0] for a in P.alloc_sites)
         R.ob("order/%s/empty-list" % op, ok,
              "an empty topic list is refused with InvalidRequest before an identifier is allocated", where=b.span)
